@@ -253,10 +253,59 @@ Definition c12_calldataload (a : list Z) : list Z :=
   | [] => [-1]
   end.
 
+Definition ser_branches (brs : list (option (nat * nat) * pushed)) : list Z :=
+  natZ (List.length brs) ::
+  concat (map (fun br =>
+    match br with
+    | (Some (k', c), PConst z) => [1; natZ k'; natZ c; 1; z]
+    | (Some (k', c), PSame) => [1; natZ k'; natZ c; 0; 0]
+    | (None, PConst z) => [0; 0; 0; 1; z]
+    | (None, PSame) => [0; 0; 0; 0; 0]
+    end) brs).
+
+(* event = 0 cfg ty | 1 (Path.branch) | 2 (extend_path) | 3 k z (fix) | 4 n (skip n symbols) *)
+Fixpoint de_events (cnt : nat) (l : list Z) : option (list pev) :=
+  match cnt with
+  | O => Some []
+  | S c =>
+      match l with
+      | 0 :: r =>
+          match de_cfg r with
+          | Some (cf, r1) =>
+              match de_ty (S (List.length r1)) r1 with
+              | Some (t, r2) =>
+                  match de_events c r2 with Some evs => Some (EvCalldata cf t :: evs) | None => None end
+              | None => None
+              end
+          | None => None
+          end
+      | 1 :: r => match de_events c r with Some evs => Some (EvBranch :: evs) | None => None end
+      | 2 :: r => match de_events c r with Some evs => Some (EvExtend :: evs) | None => None end
+      | 3 :: k :: z :: r => match de_events c r with Some evs => Some (EvFix (Z.to_nat k) z :: evs) | None => None end
+      | 4 :: n :: r => match de_events c r with Some evs => Some (EvSkip (Z.to_nat n) :: evs) | None => None end
+      | _ => None
+      end
+  end.
+
+(* k0 n_events event*  ->  [1; next index; n_dyn; (dynp branches-of-its-size-symbol-in-the-final-state)*] | [0] *)
+Definition c12_path (a : list Z) : list Z :=
+  match a with
+  | k0 :: n :: r =>
+      match de_events (Z.to_nat n) r with
+      | Some evs =>
+          let '(s', all) := prun {| p_next := Z.to_nat k0; p_subst := []; p_cands := [] |} evs in
+          [1; natZ (p_next s'); natZ (List.length all)]
+          ++ concat (map (fun d => ser_dynp d ++ ser_branches (calldataload (p_subst s') (p_cands s') (LVar (d_id d)))) all)
+      | None => [0]
+      end
+  | _ => [0]
+  end.
+
 Definition table : list (string * (list Z -> list Z)) :=
   [ ("c12_encode"%string, c12_encode);
     ("c12_parse"%string, c12_parse);
     ("c12_decode"%string, c12_decode);
-    ("c12_calldataload"%string, c12_calldataload) ].
+    ("c12_calldataload"%string, c12_calldataload);
+    ("c12_path"%string, c12_path) ].
 
 Extraction "_build/C12/entries.ml" table.
